@@ -129,7 +129,9 @@ func VPH_C04_setweight() {
 	}
 }
 
-// VPH_C04_rr: one round-robin step from any cursor picks ring[cursor mod len] and advances by one.
+// VPH_C04_rr: after any number cur < 2^63 of lookups, the next two round-robin picks are
+// ring[cur mod len] and ring[(cur+1) mod len] (the cursor state after cur lookups is cur in the
+// cursor field's own integer type).
 func VPH_C04_rr() {
 	n := vp.IntRange("ringlen", 1, 12)
 	ts := make([]*Target, 12)
@@ -139,10 +141,22 @@ func VPH_C04_rr() {
 	r := &Route{wTargets: ts[:n]}
 	cur := vp.Uint64("cursor")
 	vp.Assume(cur < 1<<63)
-	r.total = cur
+	vpSetCursor(&r.total, cur) // the cursor after `cur` lookups, whatever integer type holds it
 	got := rrPicker(r)
 	vp.Assert(got == r.wTargets[cur%uint64(n)], "picks-ring-at-cursor-mod-len")
-	vp.Assert(r.total == cur+1, "cursor-advances-by-one")
+	vp.Assert(vpCursor(&r.total) == vpCursor2(&r.total, cur+1), "cursor-advances-by-one")
+	got2 := rrPicker(r) // the next lookup continues the cycle: no slot repeated or skipped at any count
+	vp.Assert(got2 == r.wTargets[(cur+1)%uint64(n)], "next-pick-is-next-ring-slot")
+}
+
+// vpSetCursor / vpCursor write and read the round-robin cursor independent of the integer
+// type the field is declared with, so a change of that type is judged, not a build error.
+func vpSetCursor[T ~uint32 | ~uint64 | ~uint | ~int32 | ~int64 | ~int](p *T, v uint64) { *p = T(v) }
+func vpCursor[T ~uint32 | ~uint64 | ~uint | ~int32 | ~int64 | ~int](p *T) uint64 { return uint64(*p) }
+
+// vpCursor2 is v as the cursor's own type represents it (p only fixes the type).
+func vpCursor2[T ~uint32 | ~uint64 | ~uint | ~int32 | ~int64 | ~int](p *T, v uint64) uint64 {
+	return uint64(T(v))
 }
 
 // VPH_C04_ring: for concrete weight vectors the real ring holds exactly slots[i] entries per
